@@ -25,6 +25,13 @@ def gen(tier, rng):
         out.append((D.decode_line("token", False, D.render(D.obj([("access_token", "a"), ("token_type", "bearer"), ("expires_in", e)]), rng)), "expires-range"))
     for tt in D.TT + ["BEARER", "bearer\u0000", "Mac", "mAc", "MACx"]:
         out.append((D.decode_line("token", False, D.render(D.obj([("access_token", "a"), ("token_type", tt)]), rng)), "token-type-case"))
+    for i, lead in enumerate(["\n", "\r\n", "\t", " ", "\n\n  \t", "\r", " \n"]):
+        for trail in ("", "\n", "\r\n\t "):
+            for ct in (None, b"application/json", b"application/json; charset=utf-8"):
+                m, known = D.family_doc("token", rng, False)
+                body = lead + D.render(D.obj(m), rng) + trail
+                out.append((c05.http_line("async" if i % 2 else "sync", kinds[i % 4], False, 200, ct, body), "blank-padded-http"))
+                out.append((D.decode_line("token", False, body), "blank-padded"))
     out += c05.source_literal_http(kinds, rng)
     # the device-flow token request: a conforming success document answering a poll that was sent before the deadline is
     # accepted, however late the clock is by the time the reply has arrived (no clock reading follows a decisive reply)
